@@ -78,6 +78,7 @@ type TRes struct {
 	Prog    string   `json:"prog,omitempty"`  // rprop: first failure of the progress predicate of the inner loop (retry.go), "" if none
 	Inner   []string `json:"inner,omitempty"` // rprop: Coq text of inner-loop traces (ModelRetry replay)
 	MaxPass int      `json:"maxpass,omitempty"`
+	Stall   string   `json:"stall,omitempty"` // round 7: Coq text of the logged trajectory of an unconstrained newton run (CorrNewton.NS)
 }
 
 // ---------------------------------------------------------------- matrix families
@@ -457,6 +458,7 @@ func termCases(opts Opts) []TCase {
 		add(TCase{Routine: "rprop-dense", Family: fam, N: 2, Obj: "quadratic", Cap: 5, P: []float64{0.1, 1.2, 0.5}})
 	}
 	zpCases(add)
+	stallCases(add)
 	add(TCase{Routine: "linesearch", Family: "constraints-never", N: 1, Obj: "quadratic", Cap: 20, P: []float64{1}})
 	add(TCase{Routine: "linesearch", Family: "constraints-small", N: 1, Obj: "quadratic", Cap: 20, P: []float64{2}})
 	for _, cp := range []int{0, 1, 7, 1000} {
@@ -565,6 +567,13 @@ func runTermCase(c TCase) (res TRes) {
 	cl := &consLog{probe: c.Probe, scalar: c.Routine == "linesearch"}
 	defer func() {
 		if r := recover(); r != nil {
+			if st, ok := r.(stallStop); ok {
+				// counting hook: the run used up its evaluation budget without returning
+				res.Outcome = "deadline"
+				res.Iters, res.Evals = cnt.iters, cnt.evals
+				res.Msg = fmt.Sprintf("%s counting hook: %d objective evaluations, %d iterations without returning (default MaxIterations)", st.state, st.evals, cnt.iters)
+				return
+			}
 			if _, ok := r.(fuelStop); ok {
 				res.Outcome = "returned"
 				if c.Routine == "rprop" || c.Routine == "rprop-dense" {
@@ -724,6 +733,9 @@ func runTermCase(c TCase) (res TRes) {
 			args = append(args, newton.HookCrit{Value: func(ad.ConstVector, ad.ConstMatrix, ad.ConstVector) bool { cnt.iters++; return false }})
 			_, err = newton.RunCrit(f, x0(), args...)
 		}
+		res.Iters, res.Evals = cnt.iters, cnt.evals
+	case "newton-root-stall", "newton-min-stall", "newton-crit-stall", "newton-minplain-stall":
+		err, res.Stall = runStall(c, cnt)
 		res.Iters, res.Evals = cnt.iters, cnt.evals
 	case "gd":
 		f := objective(c.Obj, cnt)
@@ -893,6 +905,24 @@ func runTermParent(opts Opts, cases []TCase, outName string) {
 			}
 			r.Case = c
 			r.Secs = math.Round(time.Since(t0).Seconds()*100) / 100
+			if isStallRoutine(c.Routine) {
+				if r.Outcome == "deadline" && !strings.HasPrefix(r.Msg, "hangstate:") {
+					// wall-clock deadline (loaded machine): the counting hook of the child decides, re-run it with a long deadline
+					ctx2, cancel2 := context.WithTimeout(context.Background(), 120*time.Second)
+					out2, err2 := exec.CommandContext(ctx2, self, "--extra", fmt.Sprintf("termchild:%d", i), "--replay", cf).Output()
+					cancel2()
+					var r2 TRes
+					if err2 == nil && json.Unmarshal(out2, &r2) == nil {
+						r = r2
+						r.Case = c
+					}
+				}
+				if r.Outcome == "deadline" && strings.HasPrefix(r.Msg, "hangstate:") {
+					cf2 := c
+					cf2.Flags = append(append([]string{}, c.Flags...), strings.SplitN(r.Msg, " ", 2)[0])
+					r.Case = cf2
+				}
+			}
 			if c.Routine == "svd" && r.Outcome == "deadline" {
 				// classify the state the run spins in: deterministic fuel (Golub-Kahan steps), see svdprobe.go
 				pf := filepath.Join(opts.Out, fmt.Sprintf("%s.probe_%d.json", outName, i))
